@@ -4,14 +4,14 @@
                               functions.py / Axis by Gen/GenXEval.v, regenerated from the source on every run)
    ref_eval   XPath/Ref.v     XPath 1.0 semantics of the subset (tied to lxml's engine by the same check)
    deviate    XPath/Ref.v     = xlate true: the three established deviations, and nothing else, applied to e
-   in_subset  XPath/Subset.v  decidable; excludes exactly the inputs on which one of the open classes (c)(d)(e)(f)(i)(j)(k)(l) occurs *)
+   in_subset  XPath/Subset.v  decidable; excludes exactly the inputs on which one of the open classes (i)(j)(l)(m)(n)(o) occurs *)
 From Delb.Base Require Import PyStr.
 From Delb.Tree Require Import ATree ITree.
 From Delb.XPath Require Import Ast Nav Eval Ref Subset Run EvalRef OrderFacts C06Witness.
 
 (* Full statement of DESIGN.md:  forall t ctx e nsmap, in_subset e -> NoDup (eval ...) /\ (forall n, In n (eval ...) <->
    In n (ref_eval (deviate e) ...)).  Proved as stated, with in_subset depending also on the tree and the context node
-   (the classes (c)(d)(e)(j) are properties of the candidates an expression meets); on in_subset the evaluator
+   (the classes (j) and (m) are properties of the candidates an expression meets); on in_subset the evaluator
    does not fault, so "eval" is `Ok l`.  The only normalisation: the root (document) node, which XPath 1.0 can select
    (`..` from the root element, `/.`) and no delb result can contain, is left out -- as with lxml. *)
 Theorem C06 : forall (D : itree) (m : nsmap) (e : xpath_expr) (ctx : nd),
@@ -74,40 +74,30 @@ Theorem C06_axis_table : map fst GenXEval.axis_generators =
     [112;114;101;99;101;100;105;110;103;95;115;105;98;108;105;110;103]; [115;101;108;102] ]%N.
 Proof. exact axis_generators_are_modelled. Qed.
 
-(* ---- the hypotheses are satisfiable on a non-trivial input: three paths, predicates, both extended axes *)
+(* ---- the hypotheses are satisfiable on a non-trivial input: three paths, stacked predicates, a numeric comparison of an
+        attribute, not(@x), both extended axes *)
 Example C06_example : in_subset (docnode ex_tree) ex_ns ex_expr ex_ctx = true /\
   got ex_tree ex_ns ex_expr ex_ctx = Ok [[0;0;1]; [0;2]]%nat.
 Proof. vm_compute. split; reflexivity. Qed.
 
-(* ---- refutations: outside in_subset the full statement fails (findings.d/C06.json) *)
-(* (a) and (b) were refutations until /repo commits 6531d56 / 6c8d927; now regression examples inside in_subset *)
-Example C06_a_fixed : in_subset (docnode wa_tree) wa_ns wa_expr wa_ctx = true /\
-  got wa_tree wa_ns wa_expr wa_ctx = Ok [[0;1]]%nat /\ want wa_tree wa_ns wa_expr wa_ctx = Some [[0;1]]%nat.
-Proof. vm_compute. repeat split. Qed.
-Example C06_b_fixed : in_subset (docnode wb_tree) wb_ns wb_expr wb_ctx = true /\
-  got wb_tree wb_ns wb_expr wb_ctx = Ok [[0;1]]%nat /\ want wb_tree wb_ns wb_expr wb_ctx = Some [[0;1]]%nat.
-Proof. vm_compute. repeat split. Qed.
-Theorem C06_c_refuted : in_subset (docnode wc_tree) wc_ns wc_expr wc_ctx = false /\
-  got wc_tree wc_ns wc_expr wc_ctx = Ok [[0;0]]%nat /\ want wc_tree wc_ns wc_expr wc_ctx = Some [].
-Proof. vm_compute. repeat split. Qed.
-Theorem C06_d_refuted : in_subset (docnode wd_tree) wd_ns wd_expr wd_ctx = false /\
-  got wd_tree wd_ns wd_expr wd_ctx = Ok [[0;0]]%nat /\ want wd_tree wd_ns wd_expr wd_ctx = Some [].
-Proof. vm_compute. repeat split. Qed.
-Theorem C06_e_refuted : in_subset (docnode we_tree) we_ns we_expr we_ctx = false /\
-  got we_tree we_ns we_expr we_ctx = Ok [[0;0]]%nat /\ want we_tree we_ns we_expr we_ctx = Some [].
-Proof. vm_compute. repeat split. Qed.
-(* (f): XPath 1.0 compares numbers here; Ref.v does not model string -> number, the evaluator raises TypeError *)
-Theorem C06_f_refuted : in_subset (docnode wf_tree) wf_ns wf_expr wf_ctx = false /\
-  got wf_tree wf_ns wf_expr wf_ctx = Crash TypeError.
-Proof. vm_compute. repeat split. Qed.
-(* (g) and (h) were refutations until /repo commits c8b3442 / c9f24a8; now regression examples inside in_subset *)
-Example C06_g_fixed : in_subset (docnode wg_tree) wg_ns wg_expr wg_ctx = true /\
-  got wg_tree wg_ns wg_expr wg_ctx = Ok [[0;0]]%nat /\ want wg_tree wg_ns wg_expr wg_ctx = Some [[0;0]]%nat.
-Proof. vm_compute. repeat split. Qed.
+(* ---- regression examples: the witnesses of the classes repaired in /repo (a: 6531d56, b: 6c8d927, c: 0f8d6d4,
+        d e f k: 6d4104b, g: c8b3442, h: c9f24a8) are inside in_subset now and the evaluator agrees with the reference *)
+Definition agrees (t : itree) (m : nsmap) (e : xpath_expr) (c : nd) (r : list npath) : Prop :=
+  in_subset (docnode t) m e c = true /\ got t m e c = Ok r /\ want t m e c = Some r.
+Example C06_a_fixed : agrees wa_tree wa_ns wa_expr wa_ctx [[0;1]]%nat. Proof. vm_compute. repeat split. Qed.
+Example C06_b_fixed : agrees wb_tree wb_ns wb_expr wb_ctx [[0;1]]%nat. Proof. vm_compute. repeat split. Qed.
+Example C06_c_fixed : agrees wc_tree wc_ns wc_expr wc_ctx []. Proof. vm_compute. repeat split. Qed.
+Example C06_d_fixed : agrees wd_tree wd_ns wd_expr wd_ctx []. Proof. vm_compute. repeat split. Qed.
+Example C06_e_fixed : agrees we_tree we_ns we_expr we_ctx []. Proof. vm_compute. repeat split. Qed.
+Example C06_f_fixed : agrees wf_tree wf_ns wf_expr wf_ctx [[0;0]]%nat. Proof. vm_compute. repeat split. Qed.
+Example C06_g_fixed : agrees wg_tree wg_ns wg_expr wg_ctx [[0;0]]%nat. Proof. vm_compute. repeat split. Qed.
+Example C06_k_fixed : agrees wk_tree wk_ns wk_expr wk_ctx [[0;0]]%nat. Proof. vm_compute. repeat split. Qed.
 (* `..` from the root element selects the root node in XPath 1.0; the evaluator leaves it out of the result *)
 Example C06_h_fixed : in_subset (docnode wh_tree) wh_ns wh_expr wh_ctx = true /\
   got wh_tree wh_ns wh_expr wh_ctx = Ok [] /\ want wh_tree wh_ns wh_expr wh_ctx = Some [[]].
 Proof. vm_compute. repeat split. Qed.
+
+(* ---- refutations: outside in_subset the full statement fails (open findings, findings.d/C06.json) *)
 (* (i): text() is not an XPath 1.0 function (Ref.v: None); as a node test inside a predicate it would select nothing *)
 Theorem C06_i_refuted : in_subset (docnode wi_tree) wi_ns wi_expr wi_ctx = false /\
   got wi_tree wi_ns wi_expr wi_ctx = Ok [[0;0]]%nat /\ want wi_tree wi_ns wi_expr wi_ctx = None.
@@ -115,7 +105,15 @@ Proof. vm_compute. repeat split. Qed.
 Theorem C06_j_refuted : in_subset (docnode wj_tree) wj_ns wj_expr wj_ctx = false /\
   got wj_tree wj_ns wj_expr wj_ctx = Ok [[0;0]]%nat /\ want wj_tree wj_ns wj_expr wj_ctx = Some [].
 Proof. vm_compute. repeat split. Qed.
-(* (k): XPath 1.0 converts the attribute to a number (Ref.v: None); the evaluator compares "1" with 1 *)
-Theorem C06_k_refuted : in_subset (docnode wk_tree) wk_ns wk_expr wk_ctx = false /\
-  got wk_tree wk_ns wk_expr wk_ctx = Ok [].
+(* (m): k = U+00A0 "1" is the number 1 for _to_number, NaN for XPath 1.0 *)
+Theorem C06_m_refuted : in_subset (docnode wm_tree) wm_ns wm_expr wm_ctx = false /\
+  got wm_tree wm_ns wm_expr wm_ctx = Ok [[0;0]]%nat /\ want wm_tree wm_ns wm_expr wm_ctx = Some [].
+Proof. vm_compute. repeat split. Qed.
+(* (n): contains(position(), '1'): XPath 1.0 converts the number to "1" (Ref.v does not model number formatting: None) *)
+Theorem C06_n_refuted : in_subset (docnode wn_tree) wn_ns wn_expr wn_ctx = false /\
+  got wn_tree wn_ns wn_expr wn_ctx = Crash TypeError.
+Proof. vm_compute. repeat split. Qed.
+(* (o): @k = (1 = 2) on an element without k: false = false in XPath 1.0 *)
+Theorem C06_o_refuted : in_subset (docnode wo_tree) wo_ns wo_expr wo_ctx = false /\
+  got wo_tree wo_ns wo_expr wo_ctx = Ok [] /\ want wo_tree wo_ns wo_expr wo_ctx = Some [[0;0]]%nat.
 Proof. vm_compute. repeat split. Qed.
